@@ -64,6 +64,13 @@ int vf::engine_main() {
   auto pairs = fung_pairs();
   bool th = args().thorough(); int nvals = th ? 200 : 40;
   rep().counters["programs_pairs"] = args().worker == 0 ? pairs.size() : 0;
+  if (args().worker == 0 || args().replay()) for (const FungFact& f : fung_facts()) {
+    std::string cd = case_desc(std::string(f.a) + " ~ " + f.b, -1, "fact", J().s("rule", f.rule).b("IsFungible_AB", f.ab).b("IsFungible_BA", f.ba).b("Protocol_write", f.proto_write).str());
+    rep().count("c09_trait_only_facts"); rep().note(hash_combine(hash_str(f.a), hash_str(f.b)), true);
+    if (f.ab != f.ba) rep().violation(fmt("C09:asymmetric:%s", f.rule), fmt("IsFungible<%s, %s> = %d but IsFungible<%s, %s> = %d", f.a, f.b, (int)f.ab, f.b, f.a, (int)f.ba), cd);
+    if (f.expected && !f.ab) rep().violation(fmt("C09:documented-pair-false:%s", f.rule), fmt("IsFungible<%s, %s> is false (%s)", f.a, f.b, f.rule), cd);
+    if (f.proto_write != f.ab) rep().violation(fmt("C09:protocol-gate:%s", f.rule), fmt("Protocol<%s>::Write admits %s: %d, IsFungible = %d", f.b, f.a, (int)f.proto_write, (int)f.ab), cd);
+  }
   for (size_t pi = 0; pi < pairs.size(); pi++) {
     const FungPair& p = pairs[pi];
     std::string pname = std::string(p.a) + " ~ " + p.b;
